@@ -387,12 +387,22 @@ func closeOnExecAllFds() error {
 }
 
 func maskPath(path string) error {
-	// bind mount /dev/null if it is file
-	if err := syscall.Mount("/dev/null", path, "", syscall.MS_BIND, ""); err != nil && !errors.Is(err, os.ErrNotExist) {
-		if errors.Is(err, syscall.ENOTDIR) {
-			// otherwise, mount tmpfs to mask it
-			return syscall.Mount("tmpfs", path, "tmpfs", syscall.MS_RDONLY, "")
+	// Decide by what is at the path. The bind mount's own errors cannot be used for that: its
+	// ENOENT does not tell a missing path from a missing /dev/null (then every mask was
+	// silently skipped in a root without /dev/null).
+	fi, err := os.Lstat(path)
+	if err != nil {
+		if errors.Is(err, os.ErrNotExist) {
+			return nil
 		}
+		return fmt.Errorf("mask path: %w", err)
+	}
+	if fi.IsDir() {
+		// mount tmpfs to mask a directory
+		return syscall.Mount("tmpfs", path, "tmpfs", syscall.MS_RDONLY, "")
+	}
+	// bind mount /dev/null if it is file
+	if err := syscall.Mount("/dev/null", path, "", syscall.MS_BIND, ""); err != nil {
 		return fmt.Errorf("mask path: %w", err)
 	}
 	return nil
